@@ -18,40 +18,40 @@ import (
 
 // flowCase is one (program, run configuration).
 type flowCase struct {
-	Index    int
-	Seed     int64
-	Cfg      *pgen.Config
-	Vdr      string
-	Race     bool
-	DelayMs  int
-	Delays   string
-	Cores    int
-	ExtraArg []string
-	Tweak    func(*pgen.Spec)
-	SlowOne  int // >0: one stage call (chosen by seed) finishes this many ms late
+	Index     int
+	Seed      int64
+	Cfg       *pgen.Config
+	Vdr       string
+	Race      bool
+	DelayMs   int
+	Delays    string
+	Cores     int
+	ExtraArg  []string
+	Tweak     func(*pgen.Spec)
+	SlowOne   int         // >0: one stage call (chosen by seed) finishes this many ms late
 	PyPct     int         // percentage of stages written in Python (run through the real Python adapter)
 	Crash     string      // VERIF_CRASH spec for a first run; mrp is then restarted on the same pipestance
 	Rules     []pgen.Rule // probe behaviour rules (faults, delays) for this case
 	AutoRetry int         // --autoretry value
-	Timeout  time.Duration
-	Reattach bool // run mrp a second time on the completed pipestance and re-check outs/
-	Template int // 0 = random program, k>0 = pgen.Template(k-1)
+	Timeout   time.Duration
+	Reattach  bool // run mrp a second time on the completed pipestance and re-check outs/
+	Template  int  // 0 = random program, k>0 = pgen.Template(k-1)
 }
 
 type flowResult struct {
-	fc      *flowCase
-	prog    *pgen.Program
+	fc       *flowCase
+	prog     *pgen.Program
 	rejected string
-	run     *vrun.RunResult
-	report  *vmon.Report
-	model   *pgen.Model
-	obs     *vmon.Obs
-	dir     string
-	races   []vrun.RaceReport
-	sched   string
-	partial bool
-	crashed bool // the first run was interrupted at the requested point
-	vdr     vmon.VdrStats
+	run      *vrun.RunResult
+	report   *vmon.Report
+	model    *pgen.Model
+	obs      *vmon.Obs
+	dir      string
+	races    []vrun.RaceReport
+	sched    string
+	partial  bool
+	crashed  bool // the first run was interrupted at the requested point
+	vdr      vmon.VdrStats
 }
 
 func runFlowCase(c *vf.Ctx, fc *flowCase) *flowResult {
